@@ -5,7 +5,7 @@
    (ParseDuration / Duration.String), Model/C18Check.v (boolean forms). *)
 From Coq Require Import List NArith ZArith Bool String.
 From RareV Require Import Gen.GenTime Base.Hex Base.Num Model.Calendar Model.TimeFmt Model.Duration Model.C18Check.
-From RareV Require Import Proofs.CalendarSweep Proofs.CalendarProof Proofs.CalendarBucket Proofs.TimeFmtTok Proofs.TimeFmtProof Proofs.DurationProof.
+From RareV Require Import Proofs.CalendarSweep Proofs.CalendarProof Proofs.CalendarBucket Proofs.TimeFmtTok Proofs.TimeFmtProof Proofs.TimeFmtAttr Proofs.DurationProof.
 Import ListNotations.
 Local Open Scope Z_scope.
 
@@ -166,6 +166,16 @@ Theorem C18_check_format_sound : forall arg fmt off abbr,
   C18_check_format arg fmt off abbr (kf_timeformat arg fmt off abbr) = true.
 Proof. exact check_format_sound. Qed.
 Print Assumptions C18_check_format_sound.
+(* timeattr (for instants whose local year is 0..9999) and buckettime *)
+Theorem C18_check_attr_sound : forall arg attr off,
+  (forall t, atoi arg = Some t -> in_range t off = true) ->
+  C18_check_attr arg attr off (kf_timeattr arg attr off) = true.
+Proof. exact check_attr_sound. Qed.
+Print Assumptions C18_check_attr_sound.
+Theorem C18_check_bucket_sound : forall str b fmt names lo fo,
+  C18_check_bucket str b fmt names lo fo (kf_buckettime str b fmt names lo fo) = true.
+Proof. exact check_bucket_sound. Qed.
+Print Assumptions C18_check_bucket_sound.
 Theorem C18_check_durationformat_sound : forall arg, C18_check_durationformat arg (kf_durationformat arg) = true.
 Proof. exact check_durationformat_sound. Qed.
 Theorem C18_check_duration_sound : forall s, C18_check_duration s (kf_duration s) = true.
@@ -191,6 +201,10 @@ Theorem C18_bucket_table :
   map fst timeBuckets = map s2b ["nanos"; "seconds"; "minutes"; "hours"; "days"; "months"; "years"]%string /\
   forallb (fun p => forallb (fun tk => match tk with TTZ | TNumTZ _ _ => false | _ => true end) (tokenize (snd p))) timeBuckets = true.
 Proof. vm_compute. split; reflexivity. Qed.
+(* the documented bucket names select the layout of that precision (in any letter case the lookup lowers the name) *)
+Theorem C18_bucket_doc :
+  forallb (fun p => match bucket_layout (fst p) with Some l => bytes_eqb (snd p) l | None => false end) doc_buckets = true.
+Proof. vm_compute. reflexivity. Qed.
 (* the attribute keys are exactly the four modelled ones *)
 Theorem C18_attr_keys : timeAttrKeys = map s2b ["QUARTER"; "WEEK"; "WEEKDAY"; "YEARWEEK"]%string.
 Proof. vm_compute. reflexivity. Qed.
